@@ -27,7 +27,10 @@ for sid in sorted(os.listdir(os.path.join(V, 'seeded'))):
     if r.get('first'):
       first = r['first'][0].split(':')[0]
       break
-  rows.append((sid, m.get('property'), (m.get('title') or '')[:90], m.get('confirmed'), m.get('detected_by_check'),
+  det = m.get('detected_by_check')
+  if m.get('checked_with'):
+    det = '%s (by the %s check)' % (det, m['checked_with'])
+  rows.append((sid, m.get('property'), (m.get('title') or '')[:90], m.get('confirmed'), det,
                first, _needed(m.get('notes')), (m.get('needs_to_manifest') or '')[:160].replace('\n', ' ')))
 out = ['# Seeded changes (written by independent sub-agents from the property text only)', '',
        'Each directory holds `patch.diff`, the author\'s `demo.py` (PASS without / FAIL with the patch), `meta.json`',
@@ -38,6 +41,6 @@ out = ['# Seeded changes (written by independent sub-agents from the property te
 for r in rows:
   out.append('| %s | %s | %s | %s | %s | %s | %s | %s |' % r)
 out.append('')
-out.append('"needed strengthening = yes": the change was missed by the check as it stood when the change arrived; see `notes` in its meta.json for what was added. All listed changes are detected by the committed checks (quick tier).')
+out.append('"needed strengthening = yes": the change was missed by the check as it stood when the change arrived; see `notes` in its meta.json for what was added. All listed changes but c10-o1 (a stated limit) are detected by the committed checks (quick tier).')
 open(os.path.join(V, 'seeded', 'INDEX.md'), 'w').write('\n'.join(out) + '\n')
 print('\n'.join(out))
